@@ -27,7 +27,9 @@ def build(rng):
         if k > 1: ops[-1]['spell'] = spell.replace(delim, delim + str(i))
         tags = tags if t in tags else tags + t
         cmd += ' ' + fd + ('<<-' if dash else '<<') + rng.choice(['', ' ']) + ops[-1]['spell']
-        if rng.random() < 0.3: cmd += ' arg'
+        x = rng.random()
+        if x < 0.3: cmd += ' arg'
+        elif x < 0.45: cmd += rng.choice([' $(b) c', ' `b` c', ' <(b) c', ' x$(b $(c))y z', ' "$(b)" c', ' $(b) >f'])     # a nested parser runs while the here-document is pending
     wrap, wt = rng.choice(WRAPS)
     tags += wt
     if k > 1: tags += '+multi'
